@@ -50,6 +50,9 @@ type tcase struct {
 const (
 	sentinelTag  = "ZZ9"
 	sentinelLine = sentinelTag + " NOOP\r\n"
+	// the follower of mode "pipelined" carries literals of its own: whatever the first command returned must not change
+	// while the parser goes on with the connection (APPEND hands out the literal it read)
+	sentinelPipe = sentinelTag + " LOGIN {1}\r\n~ {1}\r\n~\r\n"
 )
 
 var (
@@ -118,6 +121,7 @@ func (r *chunkReader) Read(p []byte) (int, error) {
 }
 
 type mode struct {
+	pipe  bool // the following command holds literals (pipelined client)
 	name  string
 	cuts  []int
 	gated bool
@@ -181,6 +185,10 @@ func execute(c *tcase, kind string, exp interface{}, m mode, rng *rand.Rand) (ou
 	rd, err := render(c.Tag, kc, c.Cmd, rng)
 	if err != nil {
 		return nil, fmt.Sprintf("cannot render case %v: %v", c.Cmd, err)
+	}
+	sentinelLine := sentinelLine
+	if m.pipe {
+		sentinelLine = sentinelPipe
 	}
 	stream := append(append([]byte{}, rd.b...), sentinelLine...)
 	cuts := m.cuts
@@ -268,7 +276,14 @@ func execute(c *tcase, kind string, exp interface{}, m mode, rng *rand.Rand) (ou
 	case perror2 != nil:
 		note("stream-desync/error/"+kind, "the next command on the connection (%q) was refused: %v: the first one did not consume exactly its own bytes", sentinelLine, perror2)
 	default:
-		if _, ok := got2.Payload.(*command.Noop); !ok || got2.Tag != sentinelTag {
+		ok2 := false
+		if m.pipe {
+			l, ok := got2.Payload.(*command.Login)
+			ok2 = ok && l.UserID == "~" && l.Password == "~"
+		} else {
+			_, ok2 = got2.Payload.(*command.Noop)
+		}
+		if !ok2 || got2.Tag != sentinelTag {
 			note("stream-desync/wrong/"+kind, "the next command on the connection (%q) was parsed as tag=%q %s", sentinelLine, got2.Tag, js(project(got2.Payload)))
 		}
 	}
@@ -325,6 +340,7 @@ func runCase(c *tcase, seed int64, counts map[string]int64) (o outcome, sig stri
 	modes := []mode{
 		{name: "whole"},
 		{name: "whole-cb", cb: true},
+		{name: "pipelined", pipe: true},
 		{name: "bytewise", cb: true},
 		{name: "marks", cb: true},
 		{name: "gated", cb: true, gated: true},
@@ -348,6 +364,8 @@ func runCase(c *tcase, seed int64, counts map[string]int64) (o outcome, sig stri
 			if m.name != "whole" && m.name != "whole-cb" && !wholeBad && !strings.HasPrefix(p.key, "literal-continuation/") {
 				if m.name == "random-case" {
 					p.key = "keyword-case/" + p.key
+				} else if m.name == "pipelined" {
+					p.key = "pipelined/" + p.key
 				} else {
 					p.key = "split/" + p.key
 				}
